@@ -2,6 +2,7 @@ import Lean.Data.Json
 import CobraModel.Model.AuxProb
 import CobraModel.Model.Fastcc
 import CobraModel.Model.Resettable
+import CobraModel.Model.Reply
 /-! Line-protocol driver of the auxiliary-problem builders: a model description and a builder call per line,
 the whole solver problem out (same shape as `harness/canon.glpk_dump`). -/
 open Lean AuxM Core
@@ -160,6 +161,11 @@ def handle (j : Json) : Except String Json := do
     let nats := fun (l : List Nat) => Json.arr (l.map (fun (n : Nat) => Json.num (JsonNumber.fromNat n))).toArray
     return Json.mkObj [("kept", nats res.kept), ("complete", Json.bool res.complete),
       ("calls", Json.arr (res.calls.map (fun c => Json.mkObj [("j", nats c.j), ("flipped", Json.bool c.flipped), ("ans", nats c.ans)])).toArray)]
+  if b == "checkStatus" then
+    -- check_solver_status(status, raise_error): null = returns, otherwise the exception class
+    let st := (j.getObjValAs? String "status").toOption
+    let r ← (← j.getObjVal? "raise").getBool?
+    return Json.mkObj [("raises", match ReplyM.checkSolverStatus st r with | none => Json.null | some e => Json.str e)]
   if b == "findBlocked" then
     -- find_blocked_reactions around its two external computations: first solution and ranges in, reported reactions out
     let sol ← ratsOf j "sol"
